@@ -105,6 +105,13 @@ pub enum R1Op {
     /// string (up to 66 bytes); bit allocation pattern 0 = witnesses, 1 = constants, 2 = first 64 constants then witnesses,
     /// 3 = witnesses with every third bit a constant
     ScalarMulBits(usize, Hex, u16, u8),
+    /// CondSelectGadget::conditionally_select_power_of_two_vector on a fresh table of 2^nbits entries
+    /// ((j+2)*B; entry modes: 0 constants, 1 witnesses, 2 alternating), position bits (big-endian, as the
+    /// gadget defines them) allocated in this mode and denoting `index`
+    SelectTable { nbits: u8, entries: u8, index: u8, bits: Mode },
+    /// an allocation whose value closure fails (the native value does not exist): must not succeed.
+    /// Ends the judged part of the history (arkworks bumps the variable count before calling the closure)
+    AllocFailing { mode: Mode, affine: bool },
     IsEq(usize, usize),
     /// CurveVar::is_zero: membership in the identity class {(0,1), (0,-1)}
     IsZero(usize),
